@@ -26,16 +26,17 @@ NameFails(r) == LET e == FixupName(r.style, r.iname, r.n) IN Need(e = r.res, "na
 (* ---- one collapse -------------------------------------------------------------- *)
 \* r.inst = [name, pos, ang, style, fix, rc]; r.tpl / r.tpl2 = template before / after
 \* [brushes: seq of [vis, sides], ents: seq of [vis, cls, keys, fix, outs, solids]];
-\* r.res = [brushes: seq of seq of sides, ents: seq of [cls, keys: seq of [k, r], fix, outs, solids, rc]]
+\* r.res = [brushes: seq of [vis, sides], ents: seq of [vis, cls, keys: seq of [k, r], fix, outs, solids: seq of [vis, sides], rc]]
 SideIds(b) == [j \in 1..Len(b) |-> b[j].id]
 RECURSIVE ZipIds(_, _)
 ZipIds(a, b) == IF a = <<>> \/ b = <<>> THEN <<>> ELSE <<<<a[1], b[1]>>>> \o ZipIds(Tail(a), Tail(b))
-\* old face id -> new face id, by position (visible world brushes, then brushes of visible entities)
+\* old face id -> new face id, by position (visible world brushes, then the visible brushes of visible entities)
 FacePairs(vb, rb, ve, re) ==
-    Flat([j \in 1..Len(vb) |-> ZipIds(SideIds(vb[j].sides), SideIds(rb[j]))])
+    Flat([j \in 1..Len(vb) |-> ZipIds(SideIds(vb[j].sides), SideIds(rb[j].sides))])
     \o Flat([j \in 1..Len(ve) |->
-              IF Len(ve[j].solids) = Len(re[j].solids)
-              THEN Flat([m \in 1..Len(ve[j].solids) |-> ZipIds(SideIds(ve[j].solids[m].sides), SideIds(re[j].solids[m]))])
+              LET ts == VisibleOf(ve[j].solids) rs == VisibleOf(re[j].solids) IN
+              IF Len(ts) = Len(rs)
+              THEN Flat([m \in 1..Len(ts) |-> ZipIds(SideIds(ts[m].sides), SideIds(rs[m].sides))])
               ELSE <<>>])
 
 BrushFails(I, tb, rb, what) ==
@@ -67,16 +68,22 @@ EntFails(I, ctx, te, re) ==
     \o (LET e == [j \in 1..Len(te.fix) |-> <<te.fix[j][1], RenamedFixup(I.style, I.name, te.fix[j][2])>>]
         IN Need(re.fix = e, "ent.fixups", e))
     \o Need(re.rc = (IF te.cls = "func_instance" THEN I.rc + 1 ELSE 0), "ent.recur", I.rc + 1)
-    \o (IF Len(te.solids) # Len(re.solids) THEN Fail("ent.solids", Len(te.solids))
-        ELSE Flat([m \in 1..Len(te.solids) |-> BrushFails(I, te.solids[m], re.solids[m], "ent.brush")]))
+    \* the visible brushes of the placed entity are the placed visible brushes of the original: a brush that is
+    \* individually hidden (or hidden through a visgroup) inside a visible entity does not become visible geometry
+    \o (LET ts == VisibleOf(te.solids) rs == VisibleOf(re.solids) IN
+        IF Len(ts) # Len(rs) THEN Fail("ent.solids", Len(ts))
+        ELSE Flat([m \in 1..Len(ts) |-> BrushFails(I, ts[m], rs[m].sides, "ent.brush")]))
 
+\* "adds a copy of every visible brush and entity": what is VISIBLE among the new objects (whatever the visgroup
+\* mode, which may also bring hidden objects along, still hidden) is exactly the placed visible contents
 PlacedFails(I, classes, tpl, res) ==
-    LET vb == VisibleOf(tpl.brushes) ve == VisibleOf(tpl.ents) IN
-    IF Len(vb) # Len(res.brushes) THEN Fail("brush.count", Len(vb))
-    ELSE IF Len(ve) # Len(res.ents) THEN Fail("ent.count", Len(ve))
-    ELSE LET ctx == [classes |-> Range(classes), faces |-> FacePairs(vb, res.brushes, ve, res.ents)] IN
-         Flat([j \in 1..Len(vb) |-> BrushFails(I, vb[j], res.brushes[j], "brush")])
-         \o Flat([j \in 1..Len(ve) |-> EntFails(I, ctx, ve[j], res.ents[j])])
+    LET vb == VisibleOf(tpl.brushes) ve == VisibleOf(tpl.ents)
+        rb == VisibleOf(res.brushes) re == VisibleOf(res.ents) IN
+    IF Len(vb) # Len(rb) THEN Fail("brush.count", Len(vb))
+    ELSE IF Len(ve) # Len(re) THEN Fail("ent.count", Len(ve))
+    ELSE LET ctx == [classes |-> Range(classes), faces |-> FacePairs(vb, rb, ve, re)] IN
+         Flat([j \in 1..Len(vb) |-> BrushFails(I, vb[j], rb[j].sides, "brush")])
+         \o Flat([j \in 1..Len(ve) |-> EntFails(I, ctx, ve[j], re[j])])
 
 CollapseFails(r) ==
     IF r.bad # "" THEN Fail("proj.lattice", r.bad)
